@@ -137,6 +137,12 @@ def sessionStep (s : S) (ws : List String) : S × String :=
     let s := S.init c proto t0
     (s, "ok | " ++ probe s)
   | _ =>
+    match ws with
+    | ["setmid", n] =>
+      -- fast-forward of the id generator (stands for the allocations in between, e.g. QoS 0 publishes): T2 only
+      let s' := { s with lastMid := (n.toNat?.getD 0) % 65536 }
+      ({ s' with log := [] }, " | " ++ probe s')
+    | _ =>
     match parseOp ws with
     | none => (s, "bad-op")
     | some op =>
@@ -158,6 +164,9 @@ def sessionInvStep (st : S × Bool) (ws : List String) : (S × Bool) × String :
     let s := S.init c proto t0
     ((s, true), " ".intercalate s.failing)
   | _ =>
+    match ws with
+    | ["setmid", n] => (({ s with lastMid := (n.toNat?.getD 0) % 65536 }, conf), "")
+    | _ =>
     match parseOp ws with
     | none => (st, "bad-op")
     | some op =>
